@@ -205,6 +205,42 @@ def run_check(prop, tier, runs=None, workers=16, seed=None, start=0, digests_out
         exit_code = 1
     if divergent:
         agg.harness_errors.append({"what": "nondeterminism", "detail": "event digests differ for run indices %r" % divergent[:10]})
+    # thorough tier: further batches of fresh run indices in separate interpreters under other hash seeds
+    # (Mako's code generator iterates sets, so the hash seed is an input of the system under test)
+    other = []
+    if tier == "thorough" and runs is None and os.environ.get("VERIF_HASHSEED") is None and not os.environ.get("VERIF_NO_HASHSEED_BATCHES"):
+        import tempfile, shutil
+        for k, hs in enumerate(spec.get("thorough_hashseeds", (3, 7))):
+            n_extra = max(1, n // 8)
+            outdir = tempfile.mkdtemp(prefix="mako-verif-hs-")
+            env = dict(os.environ, VERIF_HASHSEED=str(hs), VERIF_OUT=outdir, PYTHONDONTWRITEBYTECODE="1")
+            env.pop("PYTHONHASHSEED", None)
+            r = subprocess.run([sys.executable, "-m", "vsim.cli", prop, "--tier", "thorough", "--runs", str(n_extra),
+                                "--start", str(start + n + k * n_extra), "--workers", str(workers)],
+                               cwd=VERIF, env=env, stdout=subprocess.PIPE, stderr=subprocess.STDOUT)
+            out = r.stdout.decode("utf-8", "replace")
+            rec = {"pythonhashseed": hs, "runs": n_extra, "first_run_index": start + n + k * n_extra, "exit": r.returncode}
+            if r.returncode == 1:
+                # keep the replay files and report the violations as our own
+                os.makedirs(os.path.join(OUT, "replays"), exist_ok=True)
+                for ln in out.splitlines():
+                    if ln.startswith("VIOLATION property="):
+                        src = ln.split("replay=", 1)[1].strip()
+                        dst = os.path.join(OUT, "replays", os.path.basename(src))
+                        try:
+                            shutil.copy(src, dst)
+                        except OSError:
+                            dst = src
+                        lines.append("VIOLATION property=%s replay=%s" % (prop, dst))
+                    elif ln.startswith("  signature="):
+                        lines.append(ln + "  [PYTHONHASHSEED=%s]" % hs)
+                        reported.append({"signature": ln.split("signature=", 1)[1].split(" ", 1)[0], "pythonhashseed": hs})
+                exit_code = 1
+            elif r.returncode != 0:
+                agg.harness_errors.append({"what": "hashseed-batch", "detail": "PYTHONHASHSEED=%s exit %d: %s" % (hs, r.returncode, out[-800:])})
+            other.append(rec)
+            shutil.rmtree(outdir, ignore_errors=True)
+    determinism["other_hashseed_batches"] = other
     wall = time.time() - t_start
     ev = build_evidence(prop, spec, engine, tier, seed, agg, wall, wall_main, determinism, known_hit, reported, n, start)
     os.makedirs(os.path.join(OUT, "evidence"), exist_ok=True)
